@@ -97,6 +97,33 @@ def compare_tree(rows, model, what):
     return kl_counts([rows[p][0] for p in tree.leaves], [rows[p][1] for p in tree.leaves])
 
 
+def check_leaves_full(model, what):
+    """Round 4b: a reference tree that stops splitting too early (in the extreme: a single leaf, divergence and bound
+    identically 0, a detector that can never alarm) used to be accepted, because the shape is read from the
+    implementation.  count_ubound is documented as "no leaf shall contain more samples than this value, unless further
+    divisions violate the cutpoint_proportion_lbound restriction"; the implementation (pinned by C08) also stops when
+    the node holds at most count_ubound distinct scalar values or has no extent along the axis of its depth.  Demand
+    only what survives all of these: a leaf with more than count_ubound points AND more than count_ubound distinct
+    values AND a positive extent along its axis must have been split (the menus are small integers / short decimals:
+    int(cutpoint_proportion_lbound * range) is 0 and midpoints are never rounded up to the maximum)."""
+    tree = model.R.tree
+    by = {}
+    for p in tree.points:
+        by.setdefault(tree.leaf_of(p), []).append(p)
+    for leaf, pts in sorted(by.items()):
+        axis = len(leaf) % tree.dim
+        col = [p[axis] for p in pts]
+        if len(pts) > tree.ub and len({v for p in pts for v in p}) > tree.ub and min(col) < max(col):
+            raise Violation(
+                "reference-tree:oversized-leaf",
+                "%s: leaf %r of the reference tree holds %d points (%d distinct values, range [%r, %r] along axis %d) "
+                "with count_ubound=%d but is not split" % (what, leaf, len(pts), len({v for p in pts for v in p}),
+                                                          min(col), max(col), axis, tree.ub),
+                expected="internal",
+                observed="leaf",
+            )
+
+
 def sharpen(det, model, d_public, what):
     """Private fields only behind getattr, only to sharpen (DESIGN §2.2)."""
     R = model.R
@@ -211,8 +238,43 @@ for _dim in (1, 2):
         _lattice(48, _dim, "spread")[::-1]  # the spread batch in reverse row order: same leaf counts, other object content
     ]
 
-REUSE_KINDS = ("nd2", "nd1", "series", "df")  # nd1 / series: one feature (batch), one row (streaming)
-_NP = {"f8": np.float64, "i8": np.int64}
+
+
+def _lattice256(n, dim, kind):
+    """Deterministic batches of n rows on the integer lattice 0..255 for the default-parameter family (count_ubound
+    100, 600 rows as in the library's examples; a node is only split while it holds MORE than count_ubound distinct
+    scalar values, so every batch has at least 128 of them): "spread" over 0..255, "low" / "high" squeezed into one
+    half, "ends" on {0..63, 192..255}.  Fixed arithmetic pattern, no random numbers."""
+    rows = []
+    for i in range(n):
+        r = []
+        for j in range(dim):
+            v = (i * (37 + 6 * j) + 11 * j) % 256
+            if kind == "low":
+                v = v // 2
+            elif kind == "high":
+                v = 128 + v // 2
+            elif kind == "ends":
+                v = v // 2 if v < 128 else 192 + v % 64
+            r.append(float(v))
+        rows.append(r)
+    return rows
+
+
+# "huge1d" (unused at present) / "huge2d": five batches of 600 rows (the detector's DEFAULT count_ubound 100 and alpha 0.01 in the family
+# that uses them; 100 bootstrap samples of 1200 draws)
+for _dim in (1, 2):
+    MENUS["huge%dd" % _dim] = [_lattice256(600, _dim, k) for k in ("spread", "low", "high", "ends")] + [
+        _lattice256(600, _dim, "spread")[::-1]
+    ]
+
+# container kinds of the "caller re-uses / destroys its containers" families.  nd1 / series: one feature (batch), one
+# row (streaming).  Round 4b: ndF (Fortran-ordered 2-D array), ndview (a strided, non-contiguous view into a larger
+# array the caller owns: every second row and column), ndro (an array whose writeable flag is off whenever the detector
+# sees it), dfidx (DataFrame whose index labels run backwards: positions, not labels, are the rows), dfmix (DataFrame
+# with an int64 first column and float64 other columns: no single block that to_numpy() could hand out as a view)
+REUSE_KINDS = ("nd2", "nd1", "series", "df", "ndF", "ndview", "ndro", "dfidx", "dfmix")
+_NP = {"f8": np.float64, "i8": np.int64, "f4": np.float32}
 
 
 def buf_new(kind, dtype, shape, row):
@@ -228,27 +290,58 @@ def buf_new(kind, dtype, shape, row):
         return pd.Series(flat.copy())
     if kind == "df":
         return pd.DataFrame(z, columns=DF_COLS[: shape[1]])
+    if kind == "ndF":
+        return np.asfortranarray(z)
+    if kind == "ndview":
+        base = np.zeros((2 * shape[0], 2 * shape[1]), dtype=_NP[dtype])
+        return base[::2, ::2]  # does not own its data, not contiguous
+    if kind == "ndro":
+        z.flags.writeable = False
+        return z
+    if kind == "dfidx":
+        return pd.DataFrame(z, columns=DF_COLS[: shape[1]], index=list(range(shape[0]))[::-1])
+    if kind == "dfmix":
+        return pd.DataFrame({c: (z[:, j].astype(np.int64) if j == 0 else z[:, j].copy())
+                             for j, c in enumerate(DF_COLS[: shape[1]])})
     raise HarnessError("unknown reusable container %r" % (kind,))
 
 
 def buf_write(obj, kind, arr, row):
     """Overwrite the caller-owned container IN PLACE with the values of ``arr`` (the object stays the same)."""
     flat = arr[0] if row else arr[:, 0]
-    if kind == "nd2":
+    if kind in ("nd2", "ndF", "ndview"):
         obj[...] = arr
+    elif kind == "ndro":  # the caller may write to its own array; the detector sees it read-only
+        obj.flags.writeable = True
+        obj[...] = arr
+        obj.flags.writeable = False
     elif kind == "nd1":
         obj[...] = flat
     elif kind == "series":
         obj.iloc[:] = flat.astype(obj.dtype)
-    elif kind == "df":
+    elif kind in ("df", "dfidx"):
         obj.iloc[:, :] = arr.astype(obj.dtypes.iloc[0])
+    elif kind == "dfmix":
+        for j in range(arr.shape[1]):
+            obj.iloc[:, j] = arr[:, j].astype(obj.dtypes.iloc[j])
     else:
         raise HarnessError("unknown reusable container %r" % (kind,))
 
 
+def buf_scribble(obj, kind, arr, row):
+    """The caller destroys what it passed, IN PLACE, as soon as the call has returned: the rows in reverse order, every
+    value + 100 (still ordinary numbers, exact in every dtype used, different from what was passed in EVERY element,
+    and far outside the range of the menus: a reference built from them has its cut points above every later sample,
+    so the public node counts differ from the model's at the first sample that is not the minimum)."""
+    junk = np.array(arr, dtype=float)[::-1] + 100.0
+    buf_write(obj, kind, junk, row)
+    if np.array_equal(buf_read(obj, kind, row), np.array(arr, dtype=float)):
+        raise HarnessError("scribbling over the %s left the passed values in place" % (kind,))
+
+
 def buf_read(obj, kind, row):
     """The values the caller-owned container currently holds, as a 2-D float array."""
-    a = obj.to_numpy(dtype=float) if kind in ("series", "df") else np.array(obj, dtype=float)
+    a = obj.to_numpy(dtype=float) if kind in ("series", "df", "dfidx", "dfmix") else np.array(obj, dtype=float)
     if a.ndim == 1:
         a = a.reshape(1, -1) if row else a.reshape(-1, 1)
     return a
@@ -280,9 +373,25 @@ def reused_container(cfg, state, role, rows, ctx, row):
     ctx.count("reuse_kind_%s_%s" % (kind, dtype))
     if dtype == "i8":
         ctx.count("integer_typed_samples")
-    if kind == "df":
+    if kind in ("df", "dfidx", "dfmix"):
         ctx.count("dataframe_inputs")
+    if kind in ("ndF", "ndview") and not (obj.flags.c_contiguous and obj.flags.owndata):
+        ctx.count("reuse_arrays_not_c_contiguous_or_not_owning")
+    if kind == "ndro":
+        if obj.flags.writeable:
+            raise HarnessError("the read-only container is writeable")
+        ctx.count("reuse_arrays_read_only")
     return obj, key
+
+
+def scribble_after_call(cfg, state, key, rows, ctx, row):
+    """cfg["scribble"]: the caller overwrites the object it has just passed (whatever it passes next: the same object
+    or another one).  Done before anything is observed, inside the step, so the consequence of a retained alias is part
+    of the detector's state from here on (snapshots cannot cut it)."""
+    if not cfg.get("scribble"):
+        return
+    buf_scribble(state["bufs"][key], cfg["reuse"], rows, row)
+    ctx.count("scribbled_containers")
 
 
 def bufs_key(state):
@@ -358,6 +467,12 @@ class BatchSys(System):
                 state["nset"] += 1
         except Exception as e:
             raise Violation("raises", "%s(batch %d) raised %r" % (ev["op"], ev["b"], e), observed=repr(e))
+        if cfg.get("scribble"):
+            scribble_after_call(cfg, state, bkey, pts, ctx, row=False)
+            if det.drift_state == "drift":
+                ctx.mark("scribbled_over_a_drifted_batch_before_the_reference_is_rebuilt")
+            if ev["op"] == "set_reference":
+                ctx.count("scribbled_over_a_set_reference_batch")
         obs = batch_obs(det)
         before = state["model"]
         adopting = before.R is None or before.state == "drift" or ev["op"] == "set_reference"
@@ -391,6 +506,7 @@ class BatchSys(System):
         if model.d is not None:
             ctx.count("decisions_above" if obs["state"] == "drift" else "decisions_at_or_below")
         if model.epochs > before.epochs:
+            check_leaves_full(model, what)
             ctx.count("reference_adoptions")
             if before.state == "drift":
                 ctx.mark("drifted_batch_became_reference")
@@ -469,7 +585,7 @@ class StreamSys(System):
                 # a reference window is being collected: its earlier samples travelled in the same container
                 if any(p != row for p in state["model"].buf):
                     ctx.mark("reuse_reference_window_sample_overwritten_in_callers_container")
-            arr, _ = reused_container(cfg, state, "x", [list(row)], ctx, row=True)
+            arr, skey = reused_container(cfg, state, "x", [list(row)], ctx, row=True)
         elif "container" in cfg or len(row) > 1:
             arr = encode(cfg, [list(row)], pos, ctx)
         else:
@@ -482,6 +598,12 @@ class StreamSys(System):
             det.update(arr)
         except Exception as e:
             raise Violation("raises", "update(%r) raised %r" % (x, e), observed=repr(e))
+        if cfg.get("scribble"):
+            scribble_after_call(cfg, state, skey, [list(row)], ctx, row=True)
+            m0 = state["model"]  # the model BEFORE this sample
+            if m0.state == "drift" or m0.R is None:
+                if (0 if m0.state == "drift" else len(m0.buf)) + 1 < cfg["w"]:
+                    ctx.mark("scribbled_over_a_sample_of_an_incomplete_reference_window")
         obs = stream_obs(det)
         before = state["model"]
         adopting = before.R is None or before.state == "drift"
@@ -526,6 +648,7 @@ class StreamSys(System):
             if model.epochs >= 3:
                 ctx.count("drifts_in_third_or_later_epoch")
         if model.R is not None and before.R is None:
+            check_leaves_full(model, what)
             ctx.count("reference_windows_completed")
             if len(model.R.tree.leaves) == 1 and len(set(model.R.tree.points)) > 1:
                 ctx.count("single_leaf_reference_trees")
@@ -796,8 +919,81 @@ def _round4_tasks(tier):
     return out
 
 
+TWO = [[0, 0], [5, 0], [0, 5]]
+TWO3 = [[0, 0], [5, 1], [1, 5]]
+# round 4b.  "scribble": the caller overwrites the object it passed as soon as the call has returned (reversed rows,
+# values + 100), whatever it passes next -- menus whose batches all differ in shape ("sizes", "1d", "2d") never pass the
+# same container twice in the plain re-use family.  scribble False: the plain re-use family in the new container kinds.
+SCRIBBLE_BATCH = [
+    # id, menu, container, dtype, scribble, alpha, count_ubound, bootstrap_samples, depth (quick; thorough +1)
+    ("scr-sizes-nd2", "sizes", "nd2", "f8", True, 0.3, 1, 10, 3),
+    ("scr-1d-nd1", "1d", "nd1", "f8", True, 0.6, 1, 10, 3),
+    ("scr-1d-series-i8", "1d", "series", "i8", True, 0.3, 2, 10, 3),
+    ("scr-2d-df", "2d", "df", "f8", True, 0.6, 1, 10, 3),
+    ("scr-2d-ndF", "2d", "ndF", "f8", True, 0.3, 1, 10, 3),
+    ("scr-2d-ndview", "2d", "ndview", "f8", True, 0.6, 2, 10, 3),
+    ("scr-2d-ndro", "2d", "ndro", "f8", True, 0.6, 1, 10, 3),
+    ("scr-2d-dfmix", "2d", "dfmix", "f8", True, 0.6, 1, 10, 3),
+    ("scr-eq2d-nd2-f4", "eq2d", "nd2", "f4", True, 0.6, 1, 10, 3),
+    ("scr-big2d-nd2", "big2d", "nd2", "f8", True, 0.3, 8, 10, 3),
+    # the detector's default count_ubound / alpha on 600-row batches
+    ("scr-huge2d-nd2", "huge2d", "nd2", "f8", True, 0.01, 100, 100, 3),
+    ("reuse-eq2d-ndF", "eq2d", "ndF", "f8", False, 0.6, 1, 10, 3),
+    ("reuse-eq2d-ndview", "eq2d", "ndview", "f8", False, 0.3, 1, 10, 3),
+    ("reuse-eq2d-ndro", "eq2d", "ndro", "f8", False, 0.6, 2, 10, 3),
+    ("reuse-eq2d-dfmix", "eq2d", "dfmix", "f8", False, 0.3, 1, 10, 3),
+    ("reuse-eq1d-nd2-f4", "eq1d", "nd2", "f4", False, 0.6, 1, 10, 3),
+]
+SCRIBBLE_STREAM = [
+    # id, container, dtype, scribble, window_size, persistence, alpha, values, depth (quick; thorough +1)
+    ("scr-nd2-w2", "nd2", "f8", True, 2, 0, 0.6, [0, 1, 5], 8),
+    ("scr-nd1-w3", "nd1", "f8", True, 3, 0.3, 0.6, [0, 1, 5], 8),
+    ("scr-series-i8-w2", "series", "i8", True, 2, 0.5, 0.3, [0, 1, 5], 7),
+    ("scr-df-w3", "df", "f8", True, 3, 0, 0.6, [0, 1, 5], 7),
+    ("scr-nd2-w1", "nd2", "f8", True, 1, 0, 0.6, [0, 1, 5], 6),
+    ("scr-nd2-f4-w2", "nd2", "f4", True, 2, 0.5, 0.6, [0, 1, 5], 7),
+    ("scr-2d-ndview-w2", "ndview", "f8", True, 2, 0, 0.6, TWO, 7),
+    ("scr-2d-ndro-w2", "ndro", "f8", True, 2, 0.5, 0.6, TWO, 7),
+    ("scr-2d-dfmix-w3", "dfmix", "f8", True, 3, 0.3, 0.6, TWO3, 7),
+    ("scr-2d-dfidx-w2", "dfidx", "f8", True, 2, 0, 0.3, TWO, 7),
+    ("reuse-2d-ndview-w3", "ndview", "f8", False, 3, 0, 0.6, TWO3, 7),
+    ("reuse-2d-ndro-w2", "ndro", "f8", False, 2, 0.5, 0.6, TWO, 7),
+    ("reuse-2d-dfmix-w2", "dfmix", "f8", False, 2, 0, 0.6, TWO, 7),
+    ("reuse-nd2-f4-w3", "nd2", "f4", False, 3, 0.3, 0.6, [0, 1, 5], 7),
+]
+
+
+def _round4b_tasks(tier):
+    """Round-4b families: (1) "the caller destroys what it passed" (scribble), (2) further container kinds for the
+    re-use family (Fortran order, strided view, read-only, float32, DataFrames with a reversed index / mixed column
+    dtypes), (3) 600-row batches with the detector's default count_ubound 100 / alpha 0.01.  Oracle unchanged."""
+    d = 0 if tier == "quick" else 1
+    out = []
+    for cid, menu, kind, dtype, scr, alpha, ub, B, depth in SCRIBBLE_BATCH:
+        cfg = {"id": "r4b-" + cid, "menu": menu, "ub": ub, "alpha": alpha, "B": B, "max_set_reference": 1,
+               "set_menu": [0, 2], "updates": [0, 1, 2, 3, 4], "reuse": kind, "reuse_dtype": dtype, "roles": "shared",
+               "scribble": scr}
+        heavy = 6 if menu.startswith("huge") else 4 if menu.startswith("big") else 1
+        if menu.startswith("huge"):  # ~0.1 s per step (600 rows, 100 bootstrap samples of 1200 draws): 4 events
+            cfg["updates"], cfg["set_menu"] = [0, 1, 2], [2]
+        firsts = [{"op": "update", "b": i} for i in cfg["updates"]] + [{"op": "set_reference", "b": i} for i in cfg["set_menu"]]
+        for f in firsts:
+            out.append({"system": "KdqTreeBatch", "cfg": cfg, "prefix": [f], "depth": depth + d - 1, "validate_every": 7,
+                        "label": "KdqTreeBatch|%s|%s%d" % (cfg["id"], f["op"][0], f["b"]),
+                        "cost": heavy * 7 ** (depth - 3)})
+    for cid, kind, dtype, scr, w, p, alpha, values, depth in SCRIBBLE_STREAM:
+        cfg = {"id": "r4s-" + cid, "w": w, "persistence": p, "alpha": alpha, "B": 10, "ub": 1, "values": values,
+               "reuse": kind, "reuse_dtype": dtype, "scribble": scr}
+        if isinstance(values[0], list):
+            cfg["dim"] = len(values[0])
+        for first in values:
+            out.append({"system": "KdqTreeStreaming", "cfg": cfg, "prefix": [first], "depth": depth + d - 1,
+                        "validate_every": 7, "label": "KdqTreeStreaming|%s|%s" % (cfg["id"], first), "cost": 5})
+    return out
+
+
 def tasks(tier, seed):
-    out = _round3_tasks(tier) + _round4_tasks(tier)
+    out = _round3_tasks(tier) + _round4_tasks(tier) + _round4b_tasks(tier)
     # batch: one task per (configuration, first event)
     for menu, ub, alpha, B, depth in _batch_cfgs(tier):
         cfg = {"id": "b-%s-ub%d-a%g-B%d" % (menu, ub, alpha, B), "menu": menu, "ub": ub, "alpha": alpha, "B": B,
@@ -867,6 +1063,13 @@ REQUIRED = [
     "above_bound_but_not_yet_persistent",
     "drifts_in_third_or_later_epoch",
     "reference_windows_completed",
+    # round 4 / 4b (none of these depends on a random draw)
+    "reuse_objects_overwritten_with_other_values",
+    "scribbled_containers",
+    "scribbled_over_a_set_reference_batch",
+    "scribbled_over_a_sample_of_an_incomplete_reference_window",
+    "reuse_arrays_not_c_contiguous_or_not_owning",
+    "reuse_arrays_read_only",
 ]
 
 
@@ -891,6 +1094,33 @@ def describe(tier):
                              "alpha": list(ALPHAS_STREAM), "bootstrap_samples": 10,
                              "count_ubound": [1] if tier == "quick" else [1, 2]},
         },
+        "families_round3": "see _round3_tasks: mixed int/float dtypes, DataFrame / alternating containers, batch sizes "
+        "2..16, alpha 0 / 1 / alpha*B <= 1/2, 1-2 bootstrap samples, single-leaf trees (count_ubound 100), "
+        "set_reference runs, two-feature streams, window_size 1, persistence >= 1, interleaved detectors",
+        "families_round4_reuse": {
+            "what": "the caller keeps ONE container per (role and) shape, refills it in place and passes the same object "
+            "in every call; containers are part of the explored state; every 7th maximal path re-executed from scratch",
+            "batch": [list(r) for r in REUSE_BATCH],
+            "batch_columns": ["id", "menu", "container", "dtype", "roles", "alpha", "count_ubound", "depth(quick)"],
+            "stream": [list(r) for r in REUSE_STREAM],
+            "stream_columns": ["id", "container", "dtype", "window_size", "persistence", "alpha", "values", "depth(quick)"],
+        },
+        "families_round4b": {
+            "what": "scribble=true: the caller overwrites the object it passed (rows reversed, values + 100) as soon as "
+            "the call has returned, whatever it passes next (menus whose batches all differ in shape included); "
+            "scribble=false: plain re-use in further container kinds: ndF Fortran order, ndview strided view into a "
+            "larger array, ndro read-only array, f4 float32, dfidx DataFrame with reversed index labels, dfmix DataFrame "
+            "with int64 + float64 columns; huge2d: 600-row batches (events: update 0, 1, 2, set_reference 2) (>= 128 distinct values each) with the "
+            "detector's default count_ubound 100, alpha 0.01, 100 bootstrap samples. set_reference menu "
+            "{0, 2}, at most one set_reference per history; thorough: depth + 1",
+            "batch": [list(r) for r in SCRIBBLE_BATCH],
+            "batch_columns": ["id", "menu", "container", "dtype", "scribble", "alpha", "count_ubound", "bootstrap_samples", "depth(quick)"],
+            "stream": [list(r) for r in SCRIBBLE_STREAM],
+            "stream_columns": ["id", "container", "dtype", "scribble", "window_size", "persistence", "alpha", "values", "depth(quick)"],
+        },
+        "oracle_round4b": "at every reference adoption: a leaf of the reference tree holding more than count_ubound points, "
+        "more than count_ubound distinct scalar values and a positive extent along the axis of its depth is a violation "
+        "(reference-tree:oversized-leaf); before, any under-split shape read from the implementation was accepted",
         "explanation": "states = distinct (detector, model) states per task after transposition merging; "
         "traces_validated_against_impl = maximal executions not cut by merging; every transition compares "
         "drift_state and counters with the model, the public per-node counts with individually routed points, and "
@@ -904,6 +1134,11 @@ def describe(tier):
             "both sides come from identical count vectors or are exactly zero (exact tie: no drift)",
             "the first update of a KdqTreeBatch without reference adopts that batch as reference and leaves "
             "batches_since_reset at 0 (DESIGN §2.5)",
+            "a leaf may legitimately hold more than count_ubound points when it holds at most count_ubound distinct "
+            "scalar values (over all features) or has no extent along the axis of its depth (implementation rules pinned "
+            "by C08); everything else above count_ubound must be split (documented meaning of count_ubound)",
+            "caller-owned containers: the model sees the values written into the container before the call, never the "
+            "object; what the caller does to the object after the call must not matter",
             "statistical quality of the bootstrap bound is not decided, only that it is the stated quantile of the stated draws",
         ],
     }
